@@ -21,6 +21,7 @@ type Exit struct {
 	pval    string
 	ndefers int
 	blk     *ssa.BasicBlock // block in which the exit happened (for deciding which defers were registered)
+	recovered bool          // a normal return reached by recovering from a panic
 }
 
 // Frame is one activation being encoded (the top function or an inlined callee).
@@ -47,6 +48,7 @@ type Frame struct {
 	defers  []*ssa.Defer
 	recvd   bool
 	private    []privCell
+	inRecovered bool
 	privStructs []privStruct // struct-typed locals that never escape: other objects' havoc leaves them alone
 	privSl     map[ssa.Value]bool
 	loopIdx    *ssa.Phi
